@@ -12,6 +12,8 @@ use std::collections::BTreeMap;
 /// stands for BTreeMap<String, Core> (filled by add_from_import through iterator chains; outside the subset)
 pub struct FromTable { _x: u8 }
 
+// ---- /repo functions with ASSUMED contracts in this unit (bodies pinned: contracts/assume_pins.json) ----------------------------
+//@@ ASSUME src/generate/convert/state.rs | impl Imports | add_from_import
 verus! {
 
 #[verifier::external_type_specification] pub struct ExPosition(Position);
